@@ -313,7 +313,7 @@ func (p *Planner) newInvertableTypeJoin(
 
 	skipChild := false
 	for _, field := range parent.selectReq.Fields {
-		if field.GetName() == subSelect.Name {
+		if field.GetName() == subSelect.Name && field.GetIndex() == subSelect.Index {
 			if childSelect, ok := field.AsSelect(); ok {
 				if childSelect.SkipResolve {
 					skipChild = true
